@@ -306,7 +306,10 @@ def coded_columns(repo, chk):
         for cc in calls(f):
             if mrg.module.dotted(cc.func) == f'{IE}.get_importances_estimate_pairwise':
                 ba = bind_args(cc, fn)
-                coded = {n.targets[0].id for n in own_nodes(mrg.node) if isinstance(n, ast.Assign) and isinstance(n.targets[0], ast.Name) and ('.cat.codes' in ast.unparse(n.value) or 'factorize' in ast.unparse(n.value))}
+                coded = {n.targets[0].id for n in own_nodes(mrg.node) if isinstance(n, ast.Assign) and isinstance(n.targets[0], ast.Name) and ('.cat.codes' in ast.unparse(n.value) or ('factorize' in ast.unparse(n.value) and 'sort=True' in ast.unparse(n.value)))}
+                fact = [n for n in own_nodes(mrg.node) if isinstance(n, ast.Assign) and 'factorize' in ast.unparse(n.value) and 'sort=True' not in ast.unparse(n.value)]
+                if fact:
+                    chk.bad('C05.4d', 'R6', mrg.site(fact[0]), ast.unparse(fact[0])[:140], 'columns are coded by order of first appearance (pd.factorize without sort), not by the category coding (.cat.codes: codes in sorted category order): heuristics that use the numeric codes (correlation-Pearson) no longer equal the heuristic evaluated on the category-coded columns')
                 okw = ast.unparse(ba.get(comb, ast.Constant(None))) == f.params[0] and isinstance(ba.get(frame), ast.Name) and ba.get(frame).id in coded and isinstance(ba.get(args), ast.Name)
     chk.expect(okw, 'C05.4c', 'R6', mrg.site(), 'get_importances_estimate_pairwise(combination, reference_model_features, args, tmp_df=tmp_df)', 'each worker call scores its own combination on the coded frame', 'the worker closure must pass its combination and the coded frame')
 
